@@ -894,7 +894,7 @@ def install(eng):
     R.append((re.compile(r"<[iu](?:8|16|32|64|128|size) as Ord>::(?:min|max)"), m_ord_minmax))
     R.append((re.compile(r"std::cmp::(?:min|max)"), m_ord_minmax))
     R.append((re.compile(r"<(?:bool|char|[iu](?:8|16|32|64|128|size)|InputValue|OutputValue|ExpectedValue|BinOp"
-                         r"|UnaryOp|TokenKind|OutputEntryIndex|InputEntry|OutputEntry|ExpectedEntry) as Clone>::clone"),
+                         r"|UnaryOp|TokenKind|OutputEntryIndex|InputEntry|OutputEntry|ExpectedEntry|Range) as Clone>::clone"),
               m_clone_copy))
     R.append((re.compile(r"<.* as Into>::into"), m_into))
     R.append((re.compile(r"<.* as From>::from"), m_into))
